@@ -106,9 +106,42 @@ def _check(mido, type_, attrs, t, thorough):
     return None
 
 
+SEPS = (' ', '', ':', '-', ',', ', ', '.', '|', '+', '*', '?', '(', ')', '[',
+        ']', '\\', '$', '^', '_', '/', 'x', '\n', '\t', '  ', '{', '}', '#',
+        '%', '&', '..', '->')
+
+
+def check_seps(mido, acc):
+    """hex(sep) -> from_hex(sep=sep) for every separator, on one message per
+    type and length class."""
+    from .parser_common import sample_messages
+    for m in sample_messages(mido):
+        for sep in SEPS:
+            acc.evals += 1
+            acc.nontrivial += 1
+            case = {'kind': 'sep', 'bytes': m.bytes(), 'sep': sep}
+            try:
+                text = m.hex(sep)
+                m2 = mido.Message.from_hex(text, sep=sep)
+            except Exception as e:
+                acc.violation(f'from_hex-sep-raises/{type(e).__name__}',
+                              f'from_hex({m.hex(sep)!r}, sep={sep!r}) raised '
+                              f'{e!r}', case)
+                continue
+            if vars(m2) != vars(m):
+                acc.violation('from_hex-sep-differs',
+                              f'from_hex({text!r}, sep={sep!r}) = {m2!r}', case)
+            if text != sep.join('%02X' % b for b in m.bytes()):
+                acc.violation('hex-sep', f'{m!r}.hex({sep!r}) = {text!r}', case)
+
+
 def worker(shard):
     mido = common.import_mido()
     acc = Acc()
+    if shard[0] == 'seps':
+        check_seps(mido, acc)
+        acc.sample({'separators': list(SEPS)}, cap=1)
+        return acc
     kind, type_, arg, thorough, seed = shard
     if kind == 'all':
         gen = ref.all_messages_of(type_, channel=arg)
@@ -161,6 +194,7 @@ def shards(thorough, seed):
     for type_ in ref.SYSTEM:
         if type_ != 'sysex':
             out.append(('all', type_, None, thorough, seed))
+    out.append(('seps',))
     pl = sysex_payloads(thorough, seed)
     step = max(1, len(pl) // 8)
     for i in range(0, len(pl), step):
@@ -197,6 +231,10 @@ def run():
 
 def check_case(case):
     mido = common.import_mido()
+    if case.get('kind') == 'sep':
+        acc = Acc()
+        check_seps(mido, acc)
+        return [(k, v[0][1]) for k, v in acc.viol.items()]
     attrs = dict(case['attrs'])
     if 'data' in attrs:
         attrs['data'] = tuple(attrs['data'])
